@@ -89,8 +89,9 @@ class MutexObserver(l1.Observer):
         act = sorted((tuple(md["ens_nums"]), tuple(str(x) for x in md["pnum_old"])) for md in run.inflight)
         if rec != act:
             raise l1.Violation("state:recorded-inflight-jobs", f"recorded for restart {rec}, actually in flight {act}")
-        if len(run.inflight) != min(st.workers, st.workers):
-            raise l1.Violation("state:inflight-count", f"{len(run.inflight)} jobs in flight with {st.workers} workers")
+        want = max(0, min(st.workers, st.tsteps - st.cstep))
+        if len(run.inflight) != want:
+            raise l1.Violation("state:inflight-count", f"{len(run.inflight)} jobs in flight with {st.workers} workers and {st.tsteps - st.cstep} steps left")
 
 
 def specs(ctx):
@@ -108,6 +109,17 @@ def specs(ctx):
     # a long-running simulation: path numbers that are prefixes / substrings of one another
     out.append(l1.Spec(B=4, workers=2, labels=[1, 10, 11, 100]))
     out.append(l1.Spec(B=3, workers=2, labels=[21, 2, 1]))
+    # closures that also contain: kill + restart at any moment, the last steps of a run (no new job is
+    # drawn), restarts with a budget smaller than the worker count, extension of a finished run
+    out.append(l1.Spec(B=3, workers=2, restarts=True))
+    out.append(l1.Spec(B=4, workers=3, restarts=True))
+    out.append(l1.Spec(B=3, workers=2, moves=["sh", "wf", "wf"], alphabet="ha", restarts=True))
+    if not ctx.quick:
+        out.append(l1.Spec(B=3, workers=1, restarts=True))
+        out.append(l1.Spec(B=4, workers=2, restarts=True))
+        out.append(l1.Spec(B=4, workers=2, restarts=True, engine_layout="engine0"))
+        out.append(l1.Spec(B=4, workers=3, moves=["sh", "wf", "wf", "sh"], alphabet="ha", restarts=True))
+        out.append(l1.Spec(B=5, workers=3, restarts=True))
     return out
 
 
@@ -161,8 +173,10 @@ def run(ctx, observer_factory=None, jobfn=None):
     ctx.set("traces_validated_against_impl", runs)
     ctx.set("specs", len(sp))
     ctx.set("rule", "state = canonical scheduler state (weight row per slot, locks, in-flight jobs as (pin, ensembles, slots, engines), "
-                    "engine_occ, locked list, initiation phase); transition = one completed job with one outcome followed by one "
-                    "complete outcome of the real pick; distinct = (spec, #states, depth)")
+                    "engine_occ, locked list, initiation phase, run draining?); transition = one completed job with one outcome followed by one "
+                    "complete outcome of the real pick, or (specs with restarts) kill + restart from the state's own restart file / "
+                    "begin of the last W steps / restart with a budget of 1..W-1 steps / extension of a finished run by 1..W or unlimited steps; "
+                    "distinct = (spec, #states, depth)")
     ctx.assume("abstract moves: REJ or ACC with a lattice path per reachable maximum (weights from the real calc_cv_vector); "
                "path numbers, cstep, frac and RNG state are dropped from the canonical state (used only for equality/lookup)")
 
@@ -174,7 +188,7 @@ def replay(data):
     wd = os.path.join(scratch.mkdtemp("l1r"), "run")
     old = os.getcwd()
     try:
-        res = l1._guard(lambda ch: l1.run_history(spec, data["choices"], data["n_events"], [MutexObserver()], wd))(None)
+        res = l1._guard(lambda ch: l1.run_history(spec, data["choices"], data["n_events"], [MutexObserver()], wd, ops=data.get("ops")))(None)
     finally:
         os.chdir(old)
     if isinstance(res, l1.Violation):
